@@ -157,7 +157,7 @@ func fuzzBinEntry(b *recB, f *feeder, e wirereg.Entry, rng *rand.Rand, lv binLev
 					// keep a deterministic sample
 					keep := map[int]bool{}
 					for o := range offs {
-						if (o*2654435761)%len(offs) < lv.allOffsets {
+						if int((uint64(o)*2654435761)%uint64(len(offs))) < lv.allOffsets {
 							keep[o] = true
 						}
 					}
